@@ -2002,6 +2002,11 @@ def tag_fn(ctx: "Wtp", token: str) -> None:
             # print("IGNORING NOINCLUDE/")
             return
 
+        # Attribute values are plain strings: templates, links, <nowiki> etc.
+        # inside the tag are restored to their source text (as is done for
+        # table attributes) instead of leaving the magic characters in.
+        attrs = ctx._finalize_expand(attrs)
+
         # Handle <pre> start tag
         if name == "pre":
             node = _parser_push(ctx, NodeKind.PRE)
